@@ -2,6 +2,7 @@ package props
 
 import (
 	"fmt"
+	"strings"
 	"testing"
 
 	"pgregory.net/rapid"
@@ -101,6 +102,17 @@ var checkC09 = register("C09/vector", func(c vecCase) string {
 				return fmt.Sprintf("same token set, different object: %q vs %q: %s", c.Input, twin, d)
 			}
 		}
+		// the object must keep holding what its vector wrote while related vectors are decoded
+		// the same way: the same metrics under the other version, and its base part alone
+		other := "CVSS:3.0"
+		if ref.Ver == "3.0" {
+			other = "CVSS:3.1"
+		}
+		decode3(lv, other+strings.TrimPrefix(c.Input, "CVSS:"+ref.Ver), c.NilRecv)
+		decode3(lv, spec.ProjectV3(ref, spec.Base).String(), c.NilRecv)
+		if d := s.diff(snap3(o)); d != "" {
+			return fmt.Sprintf("the object decoded from %q changed while related vectors (other version, base part) were decoded: %s", c.Input, d)
+		}
 		return ""
 	}
 	ref, ok := spec.AcceptV2(c.Input, lv)
@@ -132,6 +144,11 @@ var checkC09 = register("C09/vector", func(c vecCase) string {
 	}
 	if s.Empty != wantEmpty {
 		return fmt.Sprintf("IsEmpty() reports %q, vector groups give %q", s.Empty, wantEmpty)
+	}
+	decode2(lv, spec.ProjectV2(ref, spec.Base).String(), c.NilRecv)
+	decode2(lv, c.Input, c.NilRecv)
+	if d := s.diff(snap2(o)); d != "" {
+		return fmt.Sprintf("the object decoded from %q changed while related vectors (the same again, base part) were decoded: %s", c.Input, d)
 	}
 	return ""
 })
@@ -592,7 +609,142 @@ func vectorPropertyTest(t *testing.T, id string, check func(vecCase) string, rul
 
 const sweepRule = "sweeps (deterministic, complete): every v3 metric x every code x every token position at every decoder covering it; all 2^14 subsets of the v3 optional metrics (values hash-chosen); every v2 metric x code in every group shape at every covering decoder; every move of a contiguous block of up to 11 tokens of a full v3 vector and all 720 orders of its six sub-groups; thorough: all 8! orders of the base tokens of 4 representative vectors. rapid: accepted vectors of both versions at a random covering decoder, constructor or nil receiver, random token order, omission and explicit X (v3), all four group shapes (v2). "
 
+// floodCase: a vector decoded after other vectors were decoded by the same kind of decoder
+// in the same process (whatever the library keeps between decodes must not leak into it).
+type floodCase struct {
+	Ver     int      `json:"cvss_version"`
+	Level   int      `json:"decoder_level"`
+	NilRecv bool     `json:"nil_receiver"`
+	Earlier []string `json:"decoded_earlier"`
+	Input   string   `json:"input"`
+}
+
+var checkC09Flood = register("C09/flood", func(c floodCase) string {
+	for _, e := range c.Earlier {
+		if c.Ver == 3 {
+			decode3(spec.Level(c.Level), e, c.NilRecv)
+		} else {
+			decode2(spec.Level(c.Level), e, c.NilRecv)
+		}
+	}
+	if m := checkC09(vecCase{Ver: c.Ver, Level: c.Level, NilRecv: c.NilRecv, Input: c.Input}); m != "" {
+		return fmt.Sprintf("after %d earlier decode(s): %s", len(c.Earlier), m)
+	}
+	return ""
+})
+
+// quickVec builds a valid vector of the level without rapid (bulk stages): random version,
+// random codes, optional metrics present with probability 1/2, tokens shuffled (v3).
+func quickVec(r *gen.Rng, ver int, lv spec.Level) spec.Vec {
+	var v spec.Vec
+	if ver == 3 {
+		v.Ver = spec.V3Versions[r.Intn(2)]
+		for _, m := range spec.UpTo(spec.V3Metrics, lv) {
+			if m.Level > spec.Base && r.Intn(2) == 0 {
+				continue
+			}
+			v.Toks = append(v.Toks, spec.Tok{Name: m.Name, Value: m.Codes[r.Intn(len(m.Codes))]})
+		}
+		for i := len(v.Toks) - 1; i > 0; i-- {
+			j := r.Intn(i + 1)
+			v.Toks[i], v.Toks[j] = v.Toks[j], v.Toks[i]
+		}
+		return v
+	}
+	add := func(ms []*spec.Metric) {
+		for _, m := range ms {
+			v.Toks = append(v.Toks, spec.Tok{Name: m.Name, Value: m.Codes[r.Intn(len(m.Codes))]})
+		}
+	}
+	add(spec.V2B())
+	if lv >= spec.Temporal && r.Intn(2) == 0 {
+		add(spec.V2T())
+	}
+	if lv >= spec.Environmental && r.Intn(2) == 0 {
+		add(spec.V2E())
+	}
+	return v
+}
+
+// c09Flood: many distinct accepted vectors through each decoder of each version, nil
+// receiver (3 of 4) and constructor, each compared with the canonical encoding of what it
+// writes (cheap), the full field check following on any mismatch. A decoder that keeps
+// anything keyed by less than the whole input shows here and nowhere else: the probability
+// per decode is small, so the number of decodes is what counts.
+func c09Flood(c *ctx) {
+	per := int(pick(150000, 1500000))
+	nviol := 0
+	origin := map[string]string{} // canonical encoding -> the string that was decoded (for the replay file)
+	r := gen.NewRng(uint64(seed)*7919 + uint64(shard) + 1)
+	for _, ver := range []int{3, 2} {
+		for _, lv := range []spec.Level{spec.Environmental, spec.Temporal, spec.Base} {
+			n := per
+			if lv != spec.Environmental {
+				n = per / 4
+			}
+			clear(origin)
+			for k := 0; k < n && nviol == 0; k++ {
+				v := quickVec(r, ver, lv)
+				in := v.String()
+				nilRecv := k%4 != 0
+				var enc, want string
+				var err error
+				if ver == 3 {
+					o, e := decode3(lv, in, nilRecv)
+					err = e
+					if e == nil {
+						switch lv {
+						case spec.Base:
+							enc, _ = o.B.Encode()
+						case spec.Temporal:
+							enc, _ = o.T.Encode()
+						default:
+							enc, _ = o.E.Encode()
+						}
+					}
+					want = spec.CanonV3(v, lv)
+				} else {
+					o, e := decode2(lv, in, nilRecv)
+					err = e
+					if e == nil {
+						switch lv {
+						case spec.Base:
+							enc, _ = o.B.Encode()
+						case spec.Temporal:
+							enc, _ = o.T.Encode()
+						default:
+							enc, _ = o.E.Encode()
+						}
+					}
+					want = in
+				}
+				if err == nil && enc == want {
+					if len(origin) < 400000 {
+						origin[enc] = in
+					}
+					continue
+				}
+				// what came back instead tells which earlier vector to decode first on replay
+				cs := floodCase{Ver: ver, Level: int(lv), NilRecv: nilRecv, Input: in}
+				if prev, ok := origin[enc]; ok {
+					cs.Earlier = []string{prev}
+				} else if enc != "" {
+					cs.Earlier = []string{enc}
+				}
+				evalEnum(c, "flood", cs, checkC09Flood, &nviol)
+				if nviol == 0 { // not reproduced through the checker: report what was seen
+					c.violation("flood", cs, fmt.Sprintf("decoding %q gave (%q, %v), canonical encoding %q", in, enc, err, want))
+					nviol++
+				}
+			}
+			c.rec.Bulk("decode-flood", int64(n), int64(n), map[string]int64{fmt.Sprintf("flood:v%d:%s", ver, lv): int64(n)})
+		}
+	}
+}
+
 func TestC09(t *testing.T) {
+	extraStage = c09Flood
+	defer func() { extraStage = nil }()
 	vectorPropertyTest(t, "C09", checkC09, sweepRule+"Oracle: reference token map -> expected exported constant per field (read by reflection on the field name), unwritten optional metric = Not Defined (v3) / IsEmpty() of the group (v2); metamorphic twins (canonical order spelled out, canonical order with only defined metrics) must give an identical snapshot of fields, scores, severities and encodings at every level. Non-trivial = non-canonical presentation (v3) or at least one optional group (v2); distinct by hash of (version, decoder, receiver, input).",
 		[]string{"library constants bound to codes by exported name; fields read by reflection on the exported field name"}, spec.Base)
 }
